@@ -164,6 +164,7 @@ type attemptScript struct {
 	explicit bool // send a true Content-Length
 	copyMode bool // the body is streamed with io.Copy from a reader that is nothing but a Reader
 	hints    bool // 103 Early Hints are sent before the status of this attempt
+	suppress bool // the handler switches off the server's automatic Content-Type and Date (header value nil, as net/http documents)
 }
 
 // plainReader hides everything but Read (no WriteTo, no Len).
@@ -188,6 +189,7 @@ func genScript(t *rapid.T) []attemptScript {
 		s.explicit = rapid.IntRange(0, 2).Draw(t, "explicitCL") == 0
 		s.copyMode = rapid.IntRange(0, 3).Draw(t, "ioCopy") == 0
 		s.hints = rapid.IntRange(0, 4).Draw(t, "earlyHints") == 0
+		s.suppress = rapid.IntRange(0, 5).Draw(t, "suppressAutomaticHeaders") == 0
 		out = append(out, s)
 	}
 	return out
@@ -235,6 +237,9 @@ func scriptHandler(script []attemptScript, calls *int) http.Handler {
 		w.Header().Set("X-Attempt", strconv.Itoa(i+1))
 		if s.explicit {
 			w.Header().Set("Content-Length", strconv.Itoa(len(s.body())))
+		}
+		if s.suppress {
+			w.Header()["Content-Type"], w.Header()["Date"] = nil, nil
 		}
 		if s.hints { // what a reverse proxy does when its backend sends Early Hints
 			w.WriteHeader(http.StatusEarlyHints)
@@ -364,7 +369,7 @@ func (c *caseSpec) describe() string {
 	}
 	var ss []string
 	for _, s := range c.script {
-		ss = append(ss, fmt.Sprintf("{status:%d headers:%v writes:%d bytes in %d writes explicitCL:%v ioCopy:%v earlyHints:%v}", s.status, s.headers, len(s.body()), len(s.writes), s.explicit, s.copyMode, s.hints))
+		ss = append(ss, fmt.Sprintf("{status:%d headers:%v writes:%d bytes in %d writes explicitCL:%v ioCopy:%v earlyHints:%v noAutoHeaders:%v}", s.status, s.headers, len(s.body()), len(s.writes), s.explicit, s.copyMode, s.hints, s.suppress))
 	}
 	return fmt.Sprintf("method=%s retry=%q memResponse=%d maxResponse=%d after %d over-limit exchanges script=[%s]", c.method, src, c.memThr, c.maxResp, c.preludes, strings.Join(ss, " "))
 }
@@ -462,9 +467,21 @@ func TestC07_InProcess(t *testing.T) {
 		if final.explicit {
 			wantH.Set("Content-Length", strconv.Itoa(len(final.body())))
 		}
+		if final.suppress { // set to nil after the script's own headers: no values left under these names
+			wantH.Del("Content-Type")
+			wantH.Del("Date")
+		}
 		gotL, wantL := sim.HeaderMultiset(rec.SentHeader()), sim.HeaderMultiset(wantH)
 		if !sim.SameStrings(gotL, wantL) {
 			t.Fatalf("client got headers %q, the final attempt (#%d) produced %q\ncase: %s", gotL, want, wantL, c.describe())
+		}
+		// a header name the final attempt set to nil (net/http: "to suppress automatic response headers,
+		// set their value to nil") reaches the client's writer the same way, so the suppression holds there too
+		for _, k := range []string{"Content-Type", "Date"} {
+			vs, present := rec.SentHeader()[k]
+			if final.suppress && (!present || len(vs) != 0) {
+				t.Fatalf("the final attempt (#%d) switched the automatic %s header off (value nil); the client's writer got %q (present=%v)\ncase: %s", want, k, vs, present, c.describe())
+			}
 		}
 		if gone >= 0 && c.method != "HEAD" && final.status != 204 && final.status != 304 && len(final.body()) > gone {
 			// the client stopped taking bytes: what it did take is the beginning of the final
